@@ -136,6 +136,7 @@ type hostileRT struct {
 	runs  int
 	r     *rand.Rand
 	only  int // >= 0: always run this step
+	resets int
 }
 
 func newHostile(r *rand.Rand) *hostileRT {
@@ -148,7 +149,15 @@ func (h *hostileRT) reset() {
 	if h.s != nil {
 		h.s.Close()
 	}
-	h.s = gl.NewSess(gl.Options{})
+	// every other hostile runtime is created with options of its own (inside a
+	// limited context requiring compliance flags): options given to one runtime
+	// must not stick to runtimes created later
+	h.resets++
+	if h.resets%2 == 0 {
+		h.s = gl.NewSess(gl.Options{Ctx: &rt.RuntimeContextDef{HardLimits: rt.RuntimeResources{Cpu: 3000000, Memory: 8 << 20}, RequiredFlags: rt.ComplyCpuSafe | rt.ComplyMemSafe}})
+	} else {
+		h.s = gl.NewSess(gl.Options{})
+	}
 	h.steps = nil
 	for _, src := range hostile {
 		if c, out := h.s.Compile("hostile", src); out == nil {
@@ -228,6 +237,24 @@ func (Prop) RunBatch(c *vp.Child) {
 	if c.Stage == "interleave" {
 		vs := victimsFor(c, c.Pick(1200, 12000), 0)
 		r := c.Rand("hostile")
+		// outcomes of the templates in a process where no other runtime has
+		// existed yet; compared again at the end of the batch, after hundreds of
+		// other runtimes (hostile ones, ones created with options) came and went
+		pristine := make([]*gl.Outcome, len(victims))
+		for ti, t := range victims {
+			pristine[ti] = solo(victim{label: "pristine", text: t})
+		}
+		defer func() {
+			for ti, t := range victims {
+				c.Begin(fmt.Sprintf("template%d-after-batch", ti), t)
+				again := solo(victim{label: "after", text: t})
+				c.Eval(1)
+				if digest(again) != digest(pristine[ti]) {
+					c.Violation("interference", fmt.Sprintf("template %d alone differs after other runtimes ran: %s", ti, firstDiff(pristine[ti], again)),
+						fmt.Sprintf("victim template %d run alone in a fresh runtime: at the start of the process %s; after other runtimes (some created with options, some hostile) were created, run and closed %s", ti, pristine[ti].String(), again.String()), t)
+				}
+			}
+		}()
 		h := newHostile(r)
 		// every template against every single hostile step, deterministically
 		k := 0
@@ -241,6 +268,9 @@ func (Prop) RunBatch(c *vp.Child) {
 				c.Begin(v.label, v.text+"\n-- hostile step: "+hostile[hi])
 				d1 := solo(v)
 				hh := newHostile(r)
+				if (hi+ti)%2 == 1 {
+					hh.reset() // the second incarnation is created with options
+				}
 				hh.only = hi
 				got := interleaved(v, hh)
 				hh.s.Close()
